@@ -194,9 +194,10 @@ func canaryAfter(base int) string {
 	if r.Status == "panic" {
 		return "after this source ran, a harmless program panics in the same process: " + r.Msg
 	}
-	if r.Status != "ok" {
+	if r.Status == "run-error" || r.Status == "parse-error" {
 		return "after this source ran, a harmless program fails in the same process: " + r.Status + " " + r.Msg
 	}
+	// a timeout or leftover goroutines say nothing about shared state (the machine may be loaded)
 	return ""
 }
 
